@@ -268,6 +268,9 @@ func c08(c *wk.Ctx) {
 		}
 		r.Violationf("C08|outcome=process-aborted", json.RawMessage(d.Desc), "sync ended the process (exit %d): %s", d.Result.Exit, firstPanicLine(d.Result.Stderr))
 	}
+	if wk.ReplayOne(c, "c08hist", func(idx int) interface{} { return c08extra{Resume: idx/1000%2 == 1} }, onDeath) {
+		return
+	}
 	per := c.N(12, 48)
 	nchild := c.N(4, 8)
 	wk.Parallel(nchild, 8, func(i int) {
